@@ -363,4 +363,323 @@ theorem printText_function_of_state {s s' : StateModel} (h : HashEquiv s s') (x 
   rw [e1, e2]
   exact text_hash_order_free h _ brief
 
+/-! ## 3. brief and full: `print_brief` stops where `print` goes on -/
+
+/-- **brief_is_prefix** — the exact relation between the two reports: `print_internal` returns
+    after the requesting thread's block when `brief`; otherwise it goes on with `restLines` (the
+    other threads, `Loaded modules:`, `Unloaded modules:`, the stream lists, the soft errors). So
+    if `print_brief` panics `print` panics at the same site, and if `print_brief` writes `b` then
+    `print` writes `b` followed by the rest (or panics in the rest). -/
+theorem brief_is_prefix (s : StateModel) (x : TextExtra) :
+    match printText s x true with
+    | .panic m => printText s x false = .panic m
+    | .ok b => printText s x false = obind (restLines s x) fun r => .ok (b ++ renderLines r) := by
+  simp only [printText, printLines, linesAfter, linesWith]
+  cases briefLines (setCtx none s) s x with
+  | panic m => rfl
+  | ok hd =>
+    cases restLines s x with
+    | panic m => rfl
+    | ok r => simp [obind, renderLines_append]
+
+/-- as characters: the full report starts with the brief report -/
+theorem brief_prefix_chars (s : StateModel) (x : TextExtra) (b f : List Char)
+    (hb : printText s x true = .ok b) (hf : printText s x false = .ok f) : ∃ r, f = b ++ r := by
+  have h := brief_is_prefix s x
+  rw [hb] at h
+  simp only at h
+  rw [hf] at h
+  obtain ⟨r, _, hr⟩ := obind_ok h.symm
+  cases hr
+  exact ⟨_, rfl⟩
+
+/-- whenever `print` succeeds so does `print_brief` -/
+theorem brief_ok_of_full_ok (s : StateModel) (x : TextExtra) (f : List Char)
+    (hf : printText s x false = .ok f) : ∃ b, printText s x true = .ok b := by
+  have h := brief_is_prefix s x
+  cases hb : printText s x true with
+  | ok b => exact ⟨b, rfl⟩
+  | panic m => rw [hb] at h; simp only at h; rw [hf] at h; cases h
+
+/-- what the brief report consists of, and what it leaves out: no module list, no other thread -/
+theorem brief_contents (s : StateModel) (x : TextExtra) (ls : List TLine) (h : printLines s x true = .ok ls) :
+    (∃ pre blk, ls = pre ++ blk ∧ AllPlain pre ∧ requestingLines s x = .ok blk) ∧
+    ls.filterMap loadedOf = [] ∧ ls.filterMap unloadedOf = [] ∧
+    ls.filterMap headerOf = (match s.requestingThread with
+                            | some i => [(i, true)]
+                            | none => []) := by
+  simp only [printLines, linesAfter, linesWith] at h
+  obtain ⟨hd, hhd, h⟩ := obind_ok h
+  simp only [if_true] at h
+  cases h
+  obtain ⟨pre, req, rfl, hpre, hreq⟩ := briefLines_shape _ s x ls hhd
+  have hreqk : req.filterMap loadedOf = [] ∧ req.filterMap unloadedOf = [] ∧
+      req.filterMap headerOf = (match s.requestingThread with
+                               | some i => [(i, true)]
+                               | none => []) := by
+    unfold requestingLines at hreq
+    cases hr : s.requestingThread with
+    | none => rw [hr] at hreq; cases hreq; exact ⟨rfl, rfl, rfl⟩
+    | some i =>
+      rw [hr] at hreq
+      simp only at hreq
+      split at hreq
+      · cases hreq
+      · obtain ⟨sl, hsl, hreq⟩ := obind_ok hreq
+        cases hreq
+        obtain ⟨s1, s2, s3⟩ := stackLines_noheader hsl
+        simp [List.filterMap_cons, List.filterMap_append, headerOf, loadedOf, unloadedOf, s1, s2, s3, plc]
+  refine ⟨⟨pre, req, rfl, hpre, hreq⟩, ?_, ?_, ?_⟩
+  · rw [List.filterMap_append, hpre.filterMap_eq_nil _ loadedOf_plain, hreqk.1]; rfl
+  · rw [List.filterMap_append, hpre.filterMap_eq_nil _ unloadedOf_plain, hreqk.2.1]; rfl
+  · rw [List.filterMap_append, hpre.filterMap_eq_nil _ headerOf_plain, hreqk.2.2]; rfl
+
+/-! ## 4. "number of frame lines per thread = frames + inline frames" -/
+
+/-- **frame_lines_count** — in the block `CallStack::print` writes for a thread the numbered lines
+    are numbered `0, 1, 2, …` in order, and there are exactly `Σ (1 + inline frames)` of them:
+    one for every frame and one for every inline frame. Every other line of the block is plain. -/
+theorem frame_lines_count (t : ThreadM) (x : ThreadX) (ls : List TLine) (h : stackLines t x = .ok ls) :
+    ls.filterMap frameOf = List.range (t.frames.length + (t.frames.map (·.inlines.length)).sum) ∧
+    (∀ l ∈ ls, l.kind = .plain ∨ ∃ i, l.kind = .frame i) := by
+  obtain ⟨h1, h2⟩ := stackLines_frames t x ls h
+  refine ⟨?_, h2⟩
+  rw [h1]
+  congr 1
+  unfold frameLineCount
+  induction t.frames with
+  | nil => rfl
+  | cons f rest ih => simp only [List.map_cons, List.sum_cons, List.length_cons, ih]; omega
+
+/-- a thread without frames gets the line `<no frames>` and no numbered line -/
+example : stackLines ⟨[], 8, none, none⟩ ThreadX.dflt = .ok [pl "<no frames>"] := rfl
+
+/-- non-vacuity: the example thread (one frame with one inline frame) has the numbered lines 0, 1 -/
+example : ∃ ls, stackLines ⟨[exFrame], 7, some "t", none⟩ ⟨false, [⟨some 0x401230, none, 4⟩]⟩ = .ok ls ∧
+    ls.filterMap frameOf = [0, 1] := by
+  obtain ⟨ls, hls⟩ := stackLines_total ⟨[exFrame], 7, some "t", none⟩ ⟨false, [⟨some 0x401230, none, 4⟩]⟩ (by
+    intro p hp
+    simp [zipD] at hp
+    subst hp
+    refine ⟨?_, ?_, ?_⟩ <;> simp [exFrame])
+  refine ⟨ls, hls, ?_⟩
+  rw [(frame_lines_count _ _ ls hls).1]
+  rfl
+
+/-! ## 5. "every thread has a `Thread N` block; the crashing thread block comes first and is marked" -/
+
+/-- **thread_blocks_match_threads** — the `Thread N` headers of the full report, in order: first the
+    requesting thread (marked), then every thread of the state in index order except the
+    requesting one and the ones whose stack walk was skipped because they wrote the dump. -/
+theorem thread_blocks_match_threads (s : StateModel) (x : TextExtra) (ls : List TLine)
+    (h : printLines s x false = .ok ls) :
+    ls.filterMap headerOf =
+      (match s.requestingThread with
+       | some i => [(i, true)]
+       | none => []) ++
+      (((zipD ThreadX.dflt s.threads x.threads).zipIdx.filter (otherSel s.requestingThread)).map
+        fun p => (p.2, false)) := by
+  simp only [printLines, linesAfter, linesWith] at h
+  obtain ⟨hd, hhd, h⟩ := obind_ok h
+  simp only [Bool.false_eq_true, if_false] at h
+  obtain ⟨rest, hrest, h⟩ := obind_ok h
+  cases h
+  have hb : printLines s x true = .ok hd := by
+    simp only [printLines, linesAfter, linesWith, hhd, obind, if_true]
+  obtain ⟨_, _, _, hbh⟩ := brief_contents s x hd hb
+  simp only [restLines] at hrest
+  obtain ⟨others, ho, hrest⟩ := obind_ok hrest
+  obtain ⟨mods, hm, hrest⟩ := obind_ok hrest
+  obtain ⟨unl, hu, hrest⟩ := obind_ok hrest
+  cases hrest
+  obtain ⟨o1, _, _⟩ := otherThreadsLines_headers _ _ _ _ ho
+  have m1 : mods.filterMap headerOf = [] := by
+    rw [filterMap_of_kinds kHeader headerOf headerOf_kind, moduleLines_kinds s _ _ hm, (loaded_kinds _).2.2]
+  have u1 : unl.filterMap headerOf = [] := by
+    rw [filterMap_of_kinds kHeader headerOf headerOf_kind, unloadedLines_kinds s _ _ hu, (unloaded_kinds _).2.2]
+  simp only [List.filterMap_append, hbh, o1, m1, u1, (streamLines_plain x).filterMap_eq_nil _ headerOf_plain,
+    (softLines_plain s).filterMap_eq_nil _ headerOf_plain, List.append_nil, List.filterMap_cons, headerOf, plc, pl,
+    List.filterMap_nil]
+
+/-- the requesting thread's block is the first thing after the plain summary lines, in both reports,
+    and its header carries `(crashed)` exactly when the state has exception info -/
+theorem requesting_block_first (s : StateModel) (x : TextExtra) (brief : Bool) (ls : List TLine)
+    (h : printLines s x brief = .ok ls) (i : Nat) (hi : s.requestingThread = some i) :
+    ∃ pre t tail rest, ls = pre ++ (⟨.header i true, headerText i t (some s.exc.isSome)⟩ :: tail) ++ rest ∧
+      AllPlain pre ∧ s.threads[i]? = some t := by
+  have key : ∀ hd, printLines s x true = .ok hd →
+      ∃ pre t tail, hd = pre ++ (⟨.header i true, headerText i t (some s.exc.isSome)⟩ :: tail) ∧
+        AllPlain pre ∧ s.threads[i]? = some t := by
+    intro hd hb
+    obtain ⟨⟨pre, blk, rfl, hpre, hblk⟩, _⟩ := brief_contents s x hd hb
+    unfold requestingLines at hblk
+    rw [hi] at hblk
+    simp only at hblk
+    split at hblk
+    · cases hblk
+    · rename_i t ht
+      obtain ⟨sl, _, hblk⟩ := obind_ok hblk
+      cases hblk
+      exact ⟨pre, t, _, rfl, hpre, ht⟩
+  cases brief with
+  | true =>
+    obtain ⟨pre, t, tail, rfl, hpre, ht⟩ := key ls h
+    exact ⟨pre, t, tail, [], by simp, hpre, ht⟩
+  | false =>
+    simp only [printLines, linesAfter, linesWith] at h
+    obtain ⟨hd, hhd, h⟩ := obind_ok h
+    simp only [Bool.false_eq_true, if_false] at h
+    obtain ⟨rest, _, h⟩ := obind_ok h
+    cases h
+    have hb : printLines s x true = .ok hd := by
+      simp only [printLines, linesAfter, linesWith, hhd, obind, if_true]
+    obtain ⟨pre, t, tail, rfl, hpre, ht⟩ := key hd hb
+    exact ⟨pre, t, tail, rest, rfl, hpre, ht⟩
+
+/-- every other header is the unmarked header of the thread at that index -/
+theorem other_headers_text (s : StateModel) (x : TextExtra) (ls : List TLine) (h : printLines s x false = .ok ls) :
+    ∀ l ∈ ls, ∀ k, l.kind = .header k false → ∃ t, s.threads[k]? = some t ∧ l.text = headerText k t none := by
+  simp only [printLines, linesAfter, linesWith] at h
+  obtain ⟨hd, hhd, h⟩ := obind_ok h
+  simp only [Bool.false_eq_true, if_false] at h
+  obtain ⟨rest, hrest, h⟩ := obind_ok h
+  cases h
+  have hb : printLines s x true = .ok hd := by
+    simp only [printLines, linesAfter, linesWith, hhd, obind, if_true]
+  obtain ⟨_, _, _, hbh⟩ := brief_contents s x hd hb
+  simp only [restLines] at hrest
+  obtain ⟨others, ho, hrest⟩ := obind_ok hrest
+  obtain ⟨mods, hm, hrest⟩ := obind_ok hrest
+  obtain ⟨unl, hu, hrest⟩ := obind_ok hrest
+  cases hrest
+  intro l hl k hk
+  have notIn : ∀ (part : List TLine), part.filterMap headerOf = [] → l ∉ part := by
+    intro part hp hmem
+    have : headerOf l ∈ part.map headerOf := List.mem_map_of_mem hmem
+    have h2 : (k, false) ∈ part.filterMap headerOf := by
+      rw [List.mem_filterMap]
+      exact ⟨l, hmem, by simp [headerOf, hk]⟩
+    rw [hp] at h2
+    cases h2
+  have m1 : mods.filterMap headerOf = [] := by
+    rw [filterMap_of_kinds kHeader headerOf headerOf_kind, moduleLines_kinds s _ _ hm, (loaded_kinds _).2.2]
+  have u1 : unl.filterMap headerOf = [] := by
+    rw [filterMap_of_kinds kHeader headerOf headerOf_kind, unloadedLines_kinds s _ _ hu, (unloaded_kinds _).2.2]
+  have plainPair : ∀ (a b : TLine), a.kind = .plain → b.kind = .plain → l ∈ [a, b] → False := by
+    intro a b ha hb hmem
+    simp only [List.mem_cons, List.not_mem_nil, or_false] at hmem
+    rcases hmem with rfl | rfl
+    · rw [ha] at hk; cases hk
+    · rw [hb] at hk; cases hk
+  rcases List.mem_append.mp hl with h1 | h1
+  · -- the brief part: its only header is marked
+    have h2 : (k, false) ∈ List.filterMap headerOf hd := by
+      rw [List.mem_filterMap]
+      exact ⟨l, h1, by simp [headerOf, hk]⟩
+    rw [hbh] at h2
+    cases hr : s.requestingThread <;> rw [hr] at h2 <;> simp at h2
+  · rcases List.mem_append.mp h1 with h1 | h1
+    · rcases List.mem_append.mp h1 with h1 | h1
+      · rcases List.mem_append.mp h1 with h1 | h1
+        · rcases List.mem_append.mp h1 with h1 | h1
+          · rcases List.mem_append.mp h1 with h1 | h1
+            · rcases List.mem_append.mp h1 with h1 | h1
+              · obtain ⟨_, p, hp, _, htx⟩ := otherThreadsLines_header_text _ _ _ _ ho l h1 k false hk
+                simp only [Nat.sub_zero] at hp
+                have hz := List.mem_zipIdx_iff_getElem?.mp (List.mem_of_getElem? hp)
+                simp only at hz
+                rw [zipD_getElem?] at hz
+                cases ht : s.threads[k]? with
+                | none => rw [ht] at hz; cases hz
+                | some t =>
+                  rw [ht] at hz
+                  simp only [Option.map_some, Option.some.injEq] at hz
+                  exact ⟨t, rfl, by rw [htx, ← hz]⟩
+              · exact (plainPair _ _ rfl rfl h1).elim
+            · exact absurd h1 (notIn mods m1)
+          · exact (plainPair _ _ rfl rfl h1).elim
+        · exact absurd h1 (notIn unl u1)
+      · exact absurd h1 (notIn _ ((streamLines_plain x).filterMap_eq_nil _ headerOf_plain))
+    · exact absurd h1 (notIn _ ((softLines_plain s).filterMap_eq_nil _ headerOf_plain))
+
+/-- the marks: `(crashed)` with exception info, `(requested dump, did not crash)` without -/
+example (t : ThreadM) :
+    headerText 3 t (some true) = "Thread ".toList ++ dec 3 ++ [' '] ++ (t.threadName.getD "").toList ++
+      " (crashed)".toList ++ " - tid: ".toList ++ dec t.threadId ∧
+    headerText 3 t (some false) = "Thread ".toList ++ dec 3 ++ [' '] ++ (t.threadName.getD "").toList ++
+      " (requested dump, did not crash)".toList ++ " - tid: ".toList ++ dec t.threadId ∧
+    headerText 3 t none = "Thread ".toList ++ dec 3 ++ [' '] ++ (t.threadName.getD "").toList ++ [] ++
+      " - tid: ".toList ++ dec t.threadId :=
+  ⟨rfl, rfl, rfl⟩
+
+/-! ## 6. "every module of the state is listed once in address order" -/
+
+/-- **modules_listed_by_address** — the lines under `Loaded modules:` / `Unloaded modules:` are, in
+    order, exactly the modules `by_addr()` yields; no other line of the report is a module line. -/
+theorem modules_listed_by_address (s : StateModel) (x : TextExtra) (ls : List TLine)
+    (h : printLines s x false = .ok ls) :
+    ls.filterMap loadedOf = modulesByAddr s.modules ∧ ls.filterMap unloadedOf = unloadedByAddr s.unloaded := by
+  simp only [printLines, linesAfter, linesWith] at h
+  obtain ⟨hd, hhd, h⟩ := obind_ok h
+  simp only [Bool.false_eq_true, if_false] at h
+  obtain ⟨rest, hrest, h⟩ := obind_ok h
+  cases h
+  have hb : printLines s x true = .ok hd := by
+    simp only [printLines, linesAfter, linesWith, hhd, obind, if_true]
+  obtain ⟨_, hb1, hb2, _⟩ := brief_contents s x hd hb
+  simp only [restLines] at hrest
+  obtain ⟨others, ho, hrest⟩ := obind_ok hrest
+  obtain ⟨mods, hm, hrest⟩ := obind_ok hrest
+  obtain ⟨unl, hu, hrest⟩ := obind_ok hrest
+  cases hrest
+  obtain ⟨_, o2, o3⟩ := otherThreadsLines_headers _ _ _ _ ho
+  have mk := moduleLines_kinds s _ _ hm
+  have uk := unloadedLines_kinds s _ _ hu
+  constructor
+  · simp only [List.filterMap_append, hb1, o2, (streamLines_plain x).filterMap_eq_nil _ loadedOf_plain,
+      (softLines_plain s).filterMap_eq_nil _ loadedOf_plain, List.append_nil, List.filterMap_cons, loadedOf, plc, pl,
+      List.filterMap_nil, List.nil_append]
+    rw [filterMap_of_kinds kLoaded _ loadedOf_kind unl, uk, (unloaded_kinds _).2.1,
+      filterMap_of_kinds kLoaded _ loadedOf_kind mods, mk, (loaded_kinds _).1, List.append_nil]
+  · simp only [List.filterMap_append, hb2, o3, (streamLines_plain x).filterMap_eq_nil _ unloadedOf_plain,
+      (softLines_plain s).filterMap_eq_nil _ unloadedOf_plain, List.append_nil, List.filterMap_cons, unloadedOf, plc, pl,
+      List.filterMap_nil, List.nil_append]
+    rw [filterMap_of_kinds kUnloaded _ unloadedOf_kind unl, uk, (unloaded_kinds _).1,
+      filterMap_of_kinds kUnloaded _ unloadedOf_kind mods, mk, (loaded_kinds _).2.1, List.nil_append]
+
+/-- **loaded_modules_in_address_order** — what `by_addr()` of the loaded list is (C08, with module
+    positions as values): every listed position is a module of the state with a valid range
+    (`size > 0`, `base + size` fits — so `base + size - 1` cannot panic), the list is strictly
+    ascending with pairwise disjoint ranges, no module is listed twice, and a module with a valid
+    range that intersects no other module's range IS listed. -/
+theorem loaded_modules_in_address_order (ms : List ModuleM) :
+    (∀ i ∈ modulesByAddr ms, ∃ m r, ms[i]? = some m ∧ RangeMap.mkRange m.base m.size = some r) ∧
+    ((modulesByAddr ms).Pairwise fun i j =>
+      ∃ mi mj, ms[i]? = some mi ∧ ms[j]? = some mj ∧ 0 < mi.size ∧ mi.base + mi.size ≤ mj.base) ∧
+    (modulesByAddr ms).Nodup ∧
+    (∀ i m r, ms[i]? = some m → RangeMap.mkRange m.base m.size = some r →
+      (∀ j m' r', j ≠ i → ms[j]? = some m' → RangeMap.mkRange m'.base m'.size = some r' →
+        r.intersects r' = false) → i ∈ modulesByAddr ms) :=
+  ⟨fun _ h => mem_modulesByAddr h, modulesByAddr_sorted ms, modulesByAddr_nodup ms, modulesByAddr_complete ms⟩
+
+/-- **unloaded_modules_in_address_order** — `by_addr()` of the unloaded list: exactly the modules with
+    a valid range, each once, in `(base, end)` order (overlaps are kept: a DLL may have been loaded
+    and unloaded at overlapping places). -/
+theorem unloaded_modules_in_address_order (ms : List UnloadedM) :
+    (∀ i, i ∈ unloadedByAddr ms ↔ ∃ m r, ms[i]? = some m ∧ RangeMap.mkRange m.base m.size = some r) ∧
+    (unloadedByAddr ms).Nodup ∧
+    ((unloadedByAddr ms).Pairwise fun i j =>
+      ∃ mi mj ri rj, ms[i]? = some mi ∧ ms[j]? = some mj ∧ RangeMap.mkRange mi.base mi.size = some ri ∧
+        RangeMap.mkRange mj.base mj.size = some rj ∧ RangeMap.rle ri rj = true) :=
+  ⟨mem_unloadedByAddr_iff ms, unloadedByAddr_nodup ms, unloadedByAddr_sorted ms⟩
+
+/-- non-vacuity of the isolation hypothesis: the example state's only module is isolated, hence
+    listed; a module overlapping an earlier one need not be (here `[1]` is dropped) -/
+example : (0 : Nat) ∈ modulesByAddr exState.modules :=
+  modulesByAddr_complete exState.modules 0 _ ⟨0x400000, 0x40ffff⟩ rfl (by decide) (by
+    intro j m' r' hj hm
+    cases j with
+    | zero => exact absurd rfl hj
+    | succ k => simp [exState] at hm)
+
 end MdModel.Text
